@@ -8,13 +8,15 @@ import json
 import logging
 from typing import Any, Dict, List, Optional, Tuple
 
+from harness.common import tok_str
 from vk.core import Case, Ctx
 
 GEN_MODULES: List[str] = []
 MANIFEST = {
     "design_ref": "§5 C18",
     "text": ("Lean theorem c18_history: judge (run ops) = true (+ clause theorems single_flight, failure_cached, shared_outcome, "
-             "cancelled_only_if_requested, never_raises, no_deadlock, no_orphan_marker, snapshots_ok): for EVERY sequence of environment operations (lookups of any locations, "
+             "cancelled_only_if_requested, never_raises, no_deadlock, no_orphan_marker, snapshots_ok; etree_characterised / etree_total / "
+             "description_never_asserts for the XML-tree -> dict conversion): for EVERY sequence of environment operations (lookups of any locations, "
              "responses released with any outcome, cancellation of any lookup at any point, uncache, single scheduler "
              "steps in any interleaving) the trace of the cache model is accepted by the monitor: a request is issued only "
              "when every earlier download of the location since its last uncache was abandoned by cancellation; a lookup "
@@ -24,8 +26,8 @@ MANIFEST = {
              "comparing events and snapshots after every operation; the same monitor judges the implementation's trace."),
     "note": ("Trusted: Lean kernel + standard axioms; the hand-stepped event loop (asyncio FIFO ready queue, Task.cancel "
              "semantics of CPython 3.12 are what is being modelled); the fake requester has exactly one await point; XML "
-             "text -> dict conversion is not in the Lean model: expected dictionaries come from the generator "
-             "(documents are rendered from known dictionaries) and are compared as values."),
+             "text -> element tree is the real parser's (the tree it built is sent to the driver); tree -> dict is modelled "
+             "in Lean and compared on every released document."),
     "technique": "Lean 4 proof (invariant over all operation sequences of an event-loop model) + model/implementation correspondence",
 }
 RULE = ("one case = one schedule: macro-operations {lookup loc0, lookup loc1, step, run-to-quiescence, release first "
@@ -83,17 +85,34 @@ KINDS: Dict[str, Tuple[Any, Any]] = {
     "entity": ((200, f'<?xml version="1.0"?><!DOCTYPE r [<!ENTITY a "b">]><root {NS}><device><UDN>&a;</UDN></device></root>'), None),
     "textroot": ((200, f"<root {NS}>hello</root>"), None),
 }
-VALUE_IDS = {json.dumps(DEV1, sort_keys=True): 1, json.dumps(DEV2, sort_keys=True): 2}
 FAIL_KINDS = [k for k, v in KINDS.items() if v[1] is None]
 
 
-def value_id(v: Any) -> str:
+def render_py(v: Any) -> str:
+    """canonical text of a Python value, mirror of `renderVal` in lean/Upnp/Drv/C18.lean (dict order kept)"""
     if v is None:
-        return "-"
-    try:
-        return str(VALUE_IDS.get(json.dumps(v, sort_keys=True), 999))
-    except TypeError:
-        return "998"
+        return "N"
+    if isinstance(v, str):
+        return "S" + tok_str(v)
+    if isinstance(v, dict):
+        return "D[" + ",".join(f"{tok_str(str(k))}:{render_py(x)}" for k, x in v.items()) + "]"
+    if isinstance(v, list):
+        return "L[" + ",".join(render_py(x) for x in v) + "]"
+    return f"?{type(v).__name__}"
+
+
+def tree_tokens(el) -> List[str]:
+    """the element tree as `xml.etree` built it, in the prefix form `parseElem` reads"""
+    out = ["(", tok_str(el.tag), str(len(el.attrib))]
+    for k, v in el.attrib.items():
+        out += [tok_str(k), tok_str(v)]
+    out.append("~" if el.text is None else tok_str(el.text))
+    kids = list(el)
+    out.append(str(len(kids)))
+    for c in kids:
+        out += tree_tokens(c)
+    out.append(")")
+    return out
 
 
 # ---- hand-stepped event loop -----------------------------------------------------------------------
@@ -157,6 +176,42 @@ def run_recipe(ctx: Ctx, recipe: Dict[str, Any], cid: str) -> Case:
     lines: List[str] = []
     tags = set()
     nontrivial = False
+    docs: List[str] = recipe.get("docs", [])
+    vids: Dict[str, int] = {}      # canonical text of a converted description -> value id
+    seen_docs: Dict[str, str] = {}  # response body -> expected value token
+
+    def value_id(v: Any) -> str:
+        if v is None:
+            return "-"
+        return str(vids.get(render_py(v), 999))
+
+    def expected_of(body: str) -> str:
+        """value token expected for a released 200 response; emits the `doc` line (tree + what the real
+        `_description_xml_to_dict` makes of it) the first time a body is seen"""
+        if body in seen_docs:
+            return seen_docs[body]
+        import defusedxml.ElementTree as DET
+
+        from async_upnp_client.description_cache import _description_xml_to_dict
+
+        tok = "-"
+        try:
+            val = _description_xml_to_dict(body) if body else None
+            res = render_py(val)
+            if val is not None:
+                tok = str(vids.setdefault(res, len(vids) + 1))
+        except Exception as e:  # noqa: BLE001 - reported to the driver, judged there
+            res = f"RAISES:{type(e).__name__}"
+            tags.add(f"conversion-raises:{type(e).__name__}")
+        try:
+            tree = DET.fromstring(body) if body else None
+        except Exception:  # noqa: BLE001 - not a tree: nothing for the tree-level model to say
+            tree = None
+        if tree is not None:
+            lines.append(f"doc {len(seen_docs)} {res} " + " ".join(tree_tokens(tree)))
+            tags.add("doc:" + res[:1])
+        seen_docs[body] = tok
+        return tok
 
     def outstanding() -> List[int]:
         return [i for i, d in enumerate(req.dls) if not d["fut"].done()]
@@ -206,14 +261,15 @@ def run_recipe(ctx: Ctx, recipe: Dict[str, Any], cid: str) -> Case:
             sched.step()
         elif name == "complete":
             _, d, kind = op
-            how, expected = KINDS[kind]
-            lines.append(f"op complete {d} {value_id(expected)}")
+            how = (200, docs[int(kind[3:])]) if kind.startswith("gen") else KINDS[kind][0]
+            exp = expected_of(how[1]) if isinstance(how, tuple) and how[0] == 200 else "-"
+            lines.append(f"op complete {d} {exp}")
             fut = req.dls[d]["fut"]
             if isinstance(how, tuple):
                 fut.set_result((how[0], {}, how[1]))
             else:
                 fut.set_exception(make_exception(how))
-            tags.add(f"outcome:{kind}")
+            tags.add(f"outcome:{'gen' if kind.startswith('gen') else kind}")
         elif name == "cancel":
             lines.append(f"op cancel {op[1]}")
             tasks[op[1]].cancel()
@@ -243,9 +299,10 @@ def run_recipe(ctx: Ctx, recipe: Dict[str, Any], cid: str) -> Case:
             elif name == "complete":
                 # ["complete", k, kind]: the k-th outstanding download (skipped when there is none)
                 out = outstanding()
-                if out and op[2] in KINDS:
+                ok_kind = op[2] in KINDS or (op[2].startswith("gen") and op[2][3:].isdigit() and int(op[2][3:]) < len(docs))
+                if out and ok_kind:
                     prim(["complete", out[min(op[1], len(out) - 1)], op[2]])
-                    nontrivial = nontrivial or KINDS[op[2]][1] is None
+                    nontrivial = nontrivial or op[2].startswith("gen") or KINDS[op[2]][1] is None
             elif name == "cancel":
                 if op[1] < len(tasks):
                     prim(op)
@@ -344,12 +401,79 @@ def rand_schedule(rng, n: int) -> List[List[Any]]:
     return ops
 
 
+# ---- description documents for the conversion model (mixed content, attributes, repeated tags, namespaces) ----
+
+DNS = "urn:schemas-upnp-org:device-1-0"
+TAGS = ["deviceType", "UDN", "friendlyName", "icon", "service", "serviceList", "iconList", "X_vendor", "url", "a"]
+TEXTS = [None, None, "", " ", "\n   ", "text", "  padded value\n", "é ü", "1", "a&b <c>"]
+
+
+def rand_elem(rng, depth: int, ns: str):
+    import xml.etree.ElementTree as ET
+
+    tag = rng.choice(TAGS)
+    r = rng.random()
+    q = f"{{{ns}}}{tag}" if ns and r < 0.85 else (f"{{urn:other}}{tag}" if r < 0.92 else tag)
+    el = ET.Element(q)
+    for _ in range(rng.choice([0, 0, 0, 1, 2])):
+        k = rng.choice(["id", "type", "{urn:attr}q", "text", "#x"]) if rng.random() < 0.9 else tag
+        if k != "#x":
+            el.set(k, rng.choice(["1", "", " v ", "é"]))
+    el.text = rng.choice(TEXTS)
+    if depth > 0:
+        n = rng.choice([0, 0, 1, 2, 3, 4])
+        for _ in range(n):
+            c = rand_elem(rng, depth - 1, ns)
+            c.tail = rng.choice([None, "\n  ", " tail "])
+            el.append(c)
+    return el
+
+
+def rand_document(rng) -> str:
+    """a description document: usually <root><device>…</device></root>, sometimes degenerate"""
+    import xml.etree.ElementTree as ET
+
+    ns = DNS if rng.random() < 0.8 else ""
+    q = (lambda t: f"{{{ns}}}{t}") if ns else (lambda t: t)
+    c = rng.random()
+    root = ET.Element(q("root") if c < 0.9 else q("other"))
+    root.text = rng.choice([None, "\n", "stray text", " "])
+    if rng.random() < 0.15:
+        root.set("configId", "7")
+    if c < 0.8:
+        sv = ET.SubElement(root, q("specVersion"))
+        ET.SubElement(sv, q("major")).text = "1"
+        for _ in range(rng.choice([1, 1, 1, 2])):
+            dev = ET.SubElement(root, q("device"))
+            dev.text = rng.choice([None, "\n    ", "mixed before children", ""])
+            if rng.random() < 0.2:
+                dev.set("kind", "x")
+            for _ in range(rng.randrange(0, 5)):
+                ch = rand_elem(rng, 2, ns)
+                ch.tail = rng.choice([None, "\n", "tail text"])
+                dev.append(ch)
+    elif c < 0.9:
+        for _ in range(rng.randrange(0, 3)):
+            root.append(rand_elem(rng, 1, ns))
+    text = ET.tostring(root, encoding="unicode")
+    if rng.random() < 0.3:
+        text = '<?xml version="1.0"?>\n<!-- generated -->\n' + text
+    return text
+
+
+def doc_schedule(rng) -> Dict[str, Any]:
+    docs = [rand_document(rng), rand_document(rng)]
+    ops = [["lookup", 0], ["lookup", 0], ["run"], ["complete", 0, "gen0"], ["run"], ["lookup", 0], ["run"],
+           ["uncache", 0], ["lookup", 0], ["run"], ["complete", 0, "gen1"], ["run"], ["lookup", 0], ["run"]]
+    return {"ops": ops, "docs": docs}
+
+
 def _work(args):
     from vk.core import activate_repo
 
     activate_repo()
     ctx, chunk = args
-    return [run_recipe(ctx, {"ops": ops}, cid) for cid, ops in chunk]
+    return [run_recipe(ctx, ops if isinstance(ops, dict) else {"ops": ops}, cid) for cid, ops in chunk]
 
 
 def generate(ctx: Ctx) -> List[Case]:
@@ -372,6 +496,10 @@ def generate(ctx: Ctx) -> List[Case]:
     for _ in range(20000 if big else 2500):
         jobs.append((f"r{i}", rand_schedule(rng, rng.randrange(4, 30))))
         i += 1
+    # description-conversion stream: random documents through the cache (and the tree-level model)
+    for _ in range(12000 if big else 1500):
+        jobs.append((f"d{i}", doc_schedule(rng)))  # type: ignore[arg-type]
+        i += 1
     if len(jobs) > 20000:
         import multiprocessing as mp
 
@@ -382,7 +510,7 @@ def generate(ctx: Ctx) -> List[Case]:
             parts = pool.map(_work, [(lite, c) for c in chunks])
         by_id = {c.cid: c for part in parts for c in part}
         return [by_id[cid] for cid, _ in jobs]
-    return [run_recipe(ctx, {"ops": ops}, cid) for cid, ops in jobs]
+    return [run_recipe(ctx, ops if isinstance(ops, dict) else {"ops": ops}, cid) for cid, ops in jobs]
 
 
 CORPUS: List[Dict[str, Any]] = [
@@ -401,6 +529,10 @@ CORPUS: List[Dict[str, Any]] = [
     # failure is cached; uncache allows a new download
     {"ops": [["lookup", 0], ["run"], ["complete", 0, "http404"], ["run"], ["lookup", 0], ["run"], ["uncache", 0],
              ["lookup", 0], ["run"], ["complete", 0, "ok2"], ["run"]]},
+    # etree_to_dict: attribute-less element with non-whitespace text BEFORE its children (a stale `dict_meta` asserts here)
+    {"ops": [["lookup", 0], ["lookup", 0], ["run"], ["complete", 0, "gen0"], ["run"], ["lookup", 0], ["run"]],
+     "docs": ['<root xmlns="urn:schemas-upnp-org:device-1-0"><device>mixed<UDN>uuid:x</UDN><icon a="1">t</icon>'
+              '<icon/><icon> </icon></device></root>']},
     # two locations are independent
     {"ops": [["lookup", 0], ["lookup", 1], ["lookup", 0], ["lookup", 1], ["run"], ["complete", 1, "ok2"],
              ["complete", 0, "timeout"], ["run"]]},
